@@ -215,6 +215,40 @@ func main() {
 					}
 				}
 			}
+			// a long rod (round 9): 20000 pitches; the thread k pitches above and below the middle is the thread at the
+			// middle, for k up to 9000 and around the powers of two (a turn count truncated instead of floored, a
+			// table of turns, a cached period)
+			if j.starts == 1 || j.starts == -2 {
+				long, err := sdf.Screw3D(prof, 20000*p, 0, p, j.starts)
+				if err != nil {
+					c.Violation("Screw3D|error", fmt.Sprintf("%s, 20000 pitches: %v", j.name, err), desc)
+					return
+				}
+				ks := []int{1, 2, 100, 511, 512, 513, 1000, 1023, 1024, 1025, 1026, 2047, 2048, 2049, 4095, 4096, 4097, 8191, 8192, 8193, 9000}
+				for ir := 0; ir <= 8; ir++ {
+					rr := r - 1.1*h + (1.4*h)*float64(ir)/8
+					if rr <= 0 {
+						continue
+					}
+					for ip := 0; ip < 5; ip++ {
+						ph := 2 * math.Pi * (float64(ip) + 0.37) / 5
+						for iz := 0; iz < 7; iz++ {
+							z := p * (float64(iz)/7 - 0.45)
+							f0 := long.Evaluate(cyl(rr, ph, z))
+							for _, k := range ks {
+								for _, sgn := range []float64{1, -1} {
+									n++
+									// tolerance: the rounding of z itself at k pitches (an ulp of k*p) dominates
+									if f1 := long.Evaluate(cyl(rr, ph, z+sgn*float64(k)*p)); math.Abs(f1-f0) > tol+8*float64(k)*p*2.3e-16 {
+										c.Violation("Screw3D|long-rod|not-periodic-in-z-with-the-pitch|"+hand, fmt.Sprintf("%s starts %d, rod of 20000 pitches: f(r=%g,phi=%g,z=%g) = %g but %g pitches away it is %g", j.name, j.starts, rr, ph, z, f0, sgn*float64(k), f1), desc)
+										return
+									}
+								}
+							}
+						}
+					}
+				}
+			}
 			atomic.AddInt64(&pts, n*6)
 		case "bolt-nut":
 			style := "hex"
